@@ -509,6 +509,12 @@ def macro_half(rep):
                     why = f'type(s) {sorted(n_used - gen_calls)} are referred to by name but their generic arguments are not reported'
                 elif not i_used <= dep_calls:
                     why = f'inlined / flattened type(s) {sorted(i_used - dep_calls)} do not contribute their dependencies'
+                else:
+                    # nothing the binding does not mention: a skipped field, a `type`-overridden field, the original of an `as`
+                    text = tyres.show_rope(inl)
+                    extra = sorted(t for t in vis if corp(t) and not re.search(r'(?<![\w.])' + re.match(r'^(\w+)', t).group(1) + r'(?![\w.])', text))
+                    if extra:
+                        why = f'type(s) {extra} are reported as dependencies but the binding does not mention them'
             if why:
                 rep.violations.append({'what': f'{item["src"]}: {why} [inline = {tyres.show_rope(inl)!r}, reported = {log}]',
                                        'witness': {'item': name, 'log': log}, 'key': f'mh/{name}'})
